@@ -76,6 +76,13 @@ def memberJson (m : Member JsonNumber) : Json :=
   | .bool b => Json.bool b
   | .plain s => Json.str s
 
+def normNumsJ : Json → Json
+  | .num n => .num (normJsonNum n)
+  | j => j
+
+def sortEnumL (l : List Json) : Json :=
+  Json.arr ((l.toArray.map fun x => (x.compress, normNumsJ x)).qsort (fun a b => a.1 < b.1) |>.map (·.2))
+
 def optNum (k : String) (o : Option JsonNumber) : List (String × Json) := match o with | some x => [(k, Json.num x)] | none => []
 def optNat (k : String) (o : Option Nat) : List (String × Json) := match o with | some x => [(k, Json.num (JsonNumber.fromNat x))] | none => []
 
@@ -90,7 +97,7 @@ def render30 (s : S30 JsonNumber) : Json :=
     (if s.pattern.isEmpty then [] else [("pattern", Json.str s.pattern)]) ++
     (if s.minItems = 0 then [] else [("minItems", Json.num (JsonNumber.fromNat s.minItems))]) ++ optNat "maxItems" s.maxItems ++
     (if s.uniqueItems then [("uniqueItems", Json.bool true)] else []) ++
-    (if s.enum.isEmpty then [] else [("enum", Json.arr (s.enum.map memberJson).toArray)])
+    (if s.enum.isEmpty then [] else [("enum", sortEnumL (s.enum.map memberJson))])
 
 open Gleece.Conv in
 /-- libopenapi's rendering of the members the 3.1 converter writes -/
@@ -103,7 +110,7 @@ def render31 (s : S31 JsonNumber) : Json :=
     (if s.pattern.isEmpty then [] else [("pattern", Json.str s.pattern)]) ++
     optNat "minItems" (dropZero s.minItems) ++ optNat "maxItems" (dropZero s.maxItems) ++
     (match s.uniqueItems with | some true => [("uniqueItems", Json.bool true)] | _ => []) ++
-    (if s.enum.isEmpty then [] else [("enum", Json.arr (s.enum.map memberJson).toArray)])
+    (if s.enum.isEmpty then [] else [("enum", sortEnumL (s.enum.map memberJson))])
 
 def convKeys : List String :=
   ["format", "minimum", "exclusiveMinimum", "maximum", "exclusiveMaximum", "minLength", "maxLength", "pattern", "minItems", "maxItems", "uniqueItems", "enum"]
@@ -114,9 +121,15 @@ partial def normNums : Json → Json
   | .obj kvs => Json.mkObj (kvs.toList.map fun (k, v) => (k, normNums v))
   | j => j
 
+/-- `enum` is a set: member order is not compared (the harness canonicalises component members) -/
+def sortEnum (j : Json) : Json :=
+  match j with
+  | .arr xs => Json.arr ((xs.map fun x => (x.compress, x)).qsort (fun a b => a.1 < b.1) |>.map (·.2))
+  | o => o
+
 /-- the converter-written members of a real schema -/
 def realKeywords (schema : Json) : Json :=
-  Json.mkObj (convKeys.filterMap fun k => (schema.getObjVal? k).toOption.map fun v => (k, normNums v))
+  Json.mkObj (convKeys.filterMap fun k => (schema.getObjVal? k).toOption.map fun v => (k, if k = "enum" then sortEnum (normNums v) else normNums v))
 
 def jsonAtKeys (j : Json) : List String → Option Json
   | [] => some j
